@@ -207,6 +207,9 @@ def r08_2(ctx):
         if fld == 'udp':
             # the zero-checksum arm must additionally be behind both addresses being Ipv4
             g0 = pass_edges(F, b, preds[2])
+            if 'Ipv6' not in F.variants('wire::ip::Address'):
+                g0 = []      # IPv4-only build: there is no other family the exception could extend to
+                ctx.note(f"cfg {ctx.cfg}: single address family, zero-checksum family restriction is vacuous")
             for e in g0:
                 pv4 = p_is('wire::ip::Address', ['Ipv4'], positive=True)
                 if unguarded(F, b, [e[1]], pv4):
